@@ -82,9 +82,23 @@ PREFIXES = {'>=': 'ge', '<=': 'le', '!=': 'ne', '==': 'eq', '=': 'eq', '>': 'gt'
 ANCHORED = {'_version_extract_cmpop'}       # helpers that have a table of their own: their calls stay calls
 
 
+RANGE_TABLES = {'intersect', 'always'}       # public methods of Range that have a table of their own: their calls stay calls
+
+
+def _public_methods(mod: T.Any, cls: str) -> T.Set[str]:
+    """Public (non-dunder, non-private) plain methods of `cls` that may be read through like private helpers (round 13: a
+    query merged into / split off a public sibling, e.g. always() as a projection of a pair-returning method): closed world -
+    no class of the module derives from `cls`, so `self.m(..)` is that method."""
+    for c in ast.walk(mod.tree):
+        if isinstance(c, ast.ClassDef) and any(cls in {n.id for n in ast.walk(b) if isinstance(n, ast.Name)} for b in c.bases):
+            return set()
+    return {m.name for m in mod.cls(cls).body if isinstance(m, ast.FunctionDef) and not m.name.startswith('_') and m.name not in RANGE_TABLES}
+
+
 def _nf(mod: T.Any, fn: T.Any, cls: T.Optional[str] = None, calls: T.Iterable[str] = (), skip: T.Iterable[str] = ()) -> T.Any:
     """The normal form all tables are extracted from (see c19_norm.normal_form)."""
-    return normal_form(fn, mod.tree, cls=cls, calls=calls, skip=(ANCHORED | set(skip)) - {fn.name})
+    public = _public_methods(mod, cls) if cls == 'Range' else set()
+    return normal_form(fn, mod.tree, cls=cls, calls=calls, skip=(ANCHORED | set(skip)) - {fn.name}, public=public - {fn.name})
 
 
 def _normaliser_names(mod: T.Any) -> T.Set[str]:
@@ -912,7 +926,82 @@ def r4_intersect(ctx: RuleCtx) -> None:
         if v.get('same'):
             return 'True'
         return 'None'
-    _compare(ctx, mod, 'Range.always', fn, tab, sem2, view2, ref2, lambda r: r.outcome[1] if r.outcome[0] == 'return' else r.outcome)
+
+    def got2(r: tables.Row) -> T.Any:
+        # the verdict must have been read down to one of the three answers: anything else (a call that was not read through,
+        # a projection of something) is an unread shape, never a wrong answer
+        if r.outcome[0] != 'return' or r.outcome[1] not in ('True', 'False', 'None'):
+            raise Undecided(f'Range.always: cannot read the verdict of row {r!r}')
+        return r.outcome[1]
+    # a verdict taken from the bounds directly (a shortcut in front of / instead of the intersection, round 13): judged row by row
+    pairs = [('ARG1.min', 'self.max'), ('self.min', 'ARG1.max')]        # (lower bound of one range, upper bound of the other)
+    bsem: T.Dict[Atom, T.Tuple[int, str]] = {}
+    for i, (lo, hi) in enumerate(pairs):
+        bsem[Atom('is', (lo, 'None'))] = (i, 'lo_none')
+        bsem[Atom('is', (hi, 'None'))] = (i, 'hi_none')
+        bsem[Atom('cmp', ('lt', lo, hi))] = (i, 'lt')
+        bsem[Atom('cmp', ('lt', hi, lo))] = (i, 'gt')
+        bsem[Atom('cmp', ('eq', *sorted((lo, hi))))] = (i, 'eq')
+        bsem[_truth(lo + '_eq')] = (i, 'lo_eq')
+        bsem[_truth(hi + '_eq')] = (i, 'hi_eq')
+    esem = {_truth('self.is_empty'): 'self_empty', _truth('ARG1.is_empty'): 'x_empty'}
+    if not any(a in bsem or a in esem for a in tab.atoms()):
+        _compare(ctx, mod, 'Range.always', fn, tab, sem2, view2, ref2, got2)
+        return
+    unknown = [a for a in tab.atoms() if a not in sem2 and a not in bsem and a not in esem]
+    if unknown:
+        raise Undecided(f'Range.always: atoms outside the reference vocabulary: {unknown}')
+
+    def forced_conflict(i: int, conds: T.Dict[Atom, bool]) -> T.Tuple[bool, str]:
+        """Do the row's tests on the pair (lower bound, upper bound) hold only where the two bounds exclude each other - lower above
+        upper, or equal with an exclusive side?  Decided on the finite worlds of the pair's own atoms (policy form b); a world in which
+        a compared bound is None is not part of the row (the comparison would not answer)."""
+        mine = {role: v for a, v in conds.items() if a in bsem and bsem[a][0] == i for role in [bsem[a][1]]}
+        if not mine:
+            return False, 'both bounds absent'
+        compared = bool({'lt', 'gt', 'eq'} & set(mine))
+        for lo_none in (True, False):
+            for hi_none in (True, False):
+                for order in ('lt', 'eq', 'gt'):
+                    for lo_eq in (True, False):
+                        for hi_eq in (True, False):
+                            w = {'lo_none': lo_none, 'hi_none': hi_none, 'lo_eq': lo_eq, 'hi_eq': hi_eq, 'lt': order == 'lt', 'eq': order == 'eq', 'gt': order == 'gt'}
+                            if any(w[k] != v for k, v in mine.items()) or (compared and (lo_none or hi_none)):
+                                continue
+                            conflict = not lo_none and not hi_none and (order == 'gt' or (order == 'eq' and not (lo_eq and hi_eq)))
+                            if not conflict:
+                                lo, hi = pairs[i]
+                                if lo_none or hi_none:
+                                    return False, f'{lo if lo_none else hi} is None'
+                                return False, f'{lo} {"<" if order == "lt" else "=="} {hi}' + (', both inclusive' if order == 'eq' else '')
+        return True, ''
+    for r in tab.rows:
+        got = got2(r)
+        seen = {k: v for a, v in r.conds.items() if a in sem2 for k in [sem2[a]]}
+        if seen.get('empty') is True:
+            want: T.Optional[str] = 'False'
+        elif seen.get('empty') is False and 'same' in seen:
+            want = 'True' if seen['same'] else 'None'
+        else:
+            want = None         # the verdict of this row does not come from the intersection
+        node = r.path.events[-1].node if r.path.events else fn
+        if want is not None:
+            ctx.require(got == want, f'Range.always: row {r!r} answers as the intersection says', mod, 'Range.always', repr(r),
+                        f'row `{r!r}` yields {got!r}; the reference range algebra requires {want!r}', node)
+        elif got == 'None':
+            ctx.ok(f'Range.always: row {r!r} leaves the question open (always allowed)')
+        elif got == 'False':
+            if any(r.conds.get(a) is True for a in esem):
+                ctx.ok(f'Range.always: row {r!r}: an empty operand has an empty intersection')
+                continue
+            why = [forced_conflict(i, r.conds) for i in range(len(pairs))]
+            ctx.require(any(ok for ok, _ in why), f'Range.always: row {r!r} answers False only where two bounds exclude each other', mod, 'Range.always', repr(r),
+                        f'row `{r!r}` answers False ("no version of the range satisfies the condition") without looking at the intersection, but its tests also hold for '
+                        f'{" and ".join(w for _, w in why)}: there a version lies in both ranges (bounds that merely touch exclude each other only if one side is exclusive), '
+                        f'so the intersection is not empty and the answer must not be False', node)
+        else:
+            raise Undecided(f'Range.always: row {r!r} answers True from the bounds alone; only a verdict taken from the intersection is read')
+    ctx.note(f'Range.always: table {tab.dump()}')
 
 
 REF_CHECK = {  # op -> Range keyword arguments (V = Version(v))
@@ -941,6 +1030,84 @@ def _term(kw: T.Dict[str, str], fields: T.List[T.Tuple[str, str]]) -> Term:
     """Canonical constraint: the keyword arguments that differ from the declared default."""
     dflt = dict(fields)
     return tuple(sorted((k, v) for k, v in kw.items() if dflt.get(k) != v))
+
+
+def _factory(mod: T.Any, e: ast.Call) -> T.Optional[ast.AST]:
+    """A named constructor read through (round 13): `Range.m(..)` for a classmethod/staticmethod m of Range, or `f(..)` for the only
+    module-level function f, whose body is ONE `return <expression>`: the expression with the parameters bound by signature
+    (position, keyword, keyword-only, defaults) and `cls` -> Range.  Anything else: None (the caller ends Undecided)."""
+    callee: T.Optional[ast.FunctionDef] = None
+    kind = ''
+    if isinstance(e.func, ast.Attribute) and norm(e.func.value) == 'Range':
+        ms = [m for m in mod.cls('Range').body if isinstance(m, ast.FunctionDef) and m.name == e.func.attr]
+        if len(ms) == 1 and len(ms[0].decorator_list) == 1 and norm(ms[0].decorator_list[0]) in ('classmethod', 'staticmethod'):
+            callee, kind = ms[0], norm(ms[0].decorator_list[0])
+    elif isinstance(e.func, ast.Name) and e.func.id not in ('Range', 'Version'):
+        fs = [f for f in mod.tree.body if isinstance(f, ast.FunctionDef) and f.name == e.func.id]
+        if len(fs) == 1 and not fs[0].decorator_list:
+            callee, kind = fs[0], 'function'
+    if callee is None:
+        return None
+    body = [st for st in callee.body if not (isinstance(st, ast.Expr) and isinstance(st.value, ast.Constant))]
+    a = callee.args
+    if len(body) != 1 or not isinstance(body[0], ast.Return) or body[0].value is None or a.vararg or a.kwarg \
+            or any(isinstance(x, ast.Starred) for x in e.args) or any(k.arg is None for k in e.keywords):
+        return None
+    params = [p.arg for p in a.posonlyargs + a.args]
+    actual: T.Dict[str, ast.AST] = {}
+    if kind == 'classmethod':
+        if not params:
+            return None
+        actual[params[0]] = ast.Name(id='Range', ctx=ast.Load())
+        params = params[1:]
+    if len(e.args) > len(params):
+        return None
+    actual.update(dict(zip(params, e.args)))
+    allp = params + [p.arg for p in a.kwonlyargs]
+    for k in e.keywords:
+        if k.arg not in allp or k.arg in actual:
+            return None
+        actual[k.arg] = k.value          # type: ignore[index]
+    defaults = dict(zip(params[len(params) - len(a.defaults):], a.defaults)) if a.defaults else {}
+    defaults.update({p.arg: d for p, d in zip(a.kwonlyargs, a.kw_defaults) if d is not None})
+    for q in allp:
+        if q not in actual:
+            if q not in defaults:
+                return None
+            actual[q] = defaults[q]
+    ret = body[0].value
+    if any(isinstance(n, (ast.Lambda, ast.comprehension, ast.NamedExpr)) for n in ast.walk(ret)):
+        return None
+    from ..tables import _Subst
+    out = _Subst(actual).visit(ast.parse(norm(ret), mode='eval').body)
+    root = out
+    while isinstance(root, ast.Call) and isinstance(root.func, ast.Attribute) and root.func.attr == 'intersect':
+        root = root.func.value
+    if not (isinstance(root, ast.Call) and norm(root.func) == 'Range'):
+        return None         # not a constructor of Range: not read here
+    return out
+
+
+def _expand_factories(mod: T.Any, fn: T.Any) -> T.Any:
+    """A copy of fn in which every call of a named constructor of Range (see _factory) is replaced by the constructor expression it
+    returns, so that the normal form and the range reader see `Range(k=..)`."""
+    import copy
+
+    class Exp(ast.NodeTransformer):
+        def visit_Call(self, n: ast.Call) -> ast.AST:
+            self.generic_visit(n)
+            for _ in range(3):
+                f = _factory(mod, n) if isinstance(n, ast.Call) else None
+                if f is None:
+                    break
+                n = ast.copy_location(f, n)
+                for x in ast.walk(n):
+                    ast.copy_location(x, n) if not hasattr(x, 'lineno') else None
+            return n
+    new = Exp().visit(copy.deepcopy(fn))
+    ast.fix_missing_locations(new)
+    return new
+
 
 
 class _RangeReader:
@@ -1004,6 +1171,9 @@ class _RangeReader:
             return str(known)
         raise Undecided(f'version_check_to_range: cannot read the constructor argument `{t}`')
 
+    def factory(self, e: ast.Call) -> T.Optional[ast.AST]:
+        return _factory(self.mod, e)
+
     def terms(self, e: ast.AST, op: str) -> T.List[Term]:
         if isinstance(e, ast.Call) and isinstance(e.func, ast.Attribute) and e.func.attr == 'intersect' and len(e.args) == 1 and not e.keywords:
             return self.terms(e.func.value, op) + self.terms(e.args[0], op)
@@ -1014,6 +1184,9 @@ class _RangeReader:
             kw = {names[i]: self.value(a, op) for i, a in enumerate(e.args)}
             kw.update({k.arg: self.value(k.value, op) for k in e.keywords})     # type: ignore[misc]
             return [_term(kw, self.fields)]
+        fac = self.factory(e) if isinstance(e, ast.Call) else None
+        if fac is not None:
+            return self.terms(fac, op)
         if isinstance(e, ast.Call):
             tname = self.lookup(e.func)
             if tname is not None:
@@ -1075,7 +1248,7 @@ def _half_ranges(terms: T.Iterable[Term]) -> T.List[Term]:
 def r4_check_to_range(ctx: RuleCtx) -> None:
     mod = ctx.repo.module(UNIVERSAL)
     fn = mod.func('version_check_to_range')
-    fnn = _nf(mod, fn, calls={'Version', 'Range', 'intersect'})
+    fnn = _nf(mod, _expand_factories(mod, fn), calls={'Version', 'Range', 'intersect'})
     loops = [s for s in fnn.body if isinstance(s, ast.For)]
     if len(loops) != 1:
         raise Undecided('version_check_to_range: expected one loop over the checks')
